@@ -532,6 +532,15 @@ class _StarDictDisplay(ast.NodeTransformer):
                 new_kw.append(k)
         if changed:
             n.keywords = new_kw
+        # f(a, *(x, y)) is f(a, x, y); f(a, *()) is f(a)
+        if any(isinstance(x, ast.Starred) and isinstance(x.value, (ast.Tuple, ast.List)) for x in n.args):
+            new_args = []
+            for x in n.args:
+                if isinstance(x, ast.Starred) and isinstance(x.value, (ast.Tuple, ast.List)):
+                    new_args.extend(x.value.elts)
+                else:
+                    new_args.append(x)
+            n.args = new_args
         return n
 
 
